@@ -80,9 +80,8 @@ def run(eng, rep, tier):
                     "%s of the product depend on self" % role)
             ob.flow("R1", "C03.3", fi, summ, "%s-depend-on-other:%s" % (role, label), evs, idx, tag_o,
                     "%s of the product depend on other" % role)
-    ok, why, info = is_worklist_closure(fi.node)
-    ob.decide("R10a", "C03.3", fi, "pair-worklist", ok, "the product is explored by a visited-set worklist",
-              "pair exploration is not a closure worklist: " + why, None, site=site_of(prog, fi, fi.node))
+    ob.worklist("C03.3", fi, "pair-worklist", "the product is explored by a visited-set worklist",
+                "pair exploration is not a closure worklist")
 
     # ------------------------------------------------------------------ C03.4 difference
     for recv_q, fi, summ in receivers(eng, "EpsilonNFA", "get_difference"):
@@ -103,9 +102,12 @@ def run(eng, rep, tier):
         inter = list(calls(summ, "get_intersection", own=True))
         oki = bool(inter) and all(ev.recv is not None and SELF in ev.recv.alias and comps and
                                   ev.args and (ev.args[0].alias & comps[0][0].result.alias) for ev, _ in inter)
+        rets = [ev for ev in summ.events if ev.kind == "ret" and ev.value is not None]
+        inter_res = frozenset().union(*[ev.result.alias for ev, _ in inter]) if inter else frozenset()
+        oki = oki and all(ev.value.alias and ev.value.alias <= inter_res for ev in rets)
         ob.decide("R1", "C03.4", fi, "difference=self&complement:" + label, oki,
-                  "the result is self intersected with that complement",
-                  "get_difference is not the intersection of self with the complement of other", summ,
+                  "every return path yields self intersected with that complement",
+                  "some return path of get_difference is not the intersection of self with the complement of other", summ,
                   site=site_of(prog, fi, fi.node))
 
     # ------------------------------------------------------------------ C03.5 reverse
